@@ -1,4 +1,5 @@
 # C16 — leaderboard, slices, ordered and synchronized maps behave like their models
+import glob
 import json
 import os
 import re
@@ -10,7 +11,12 @@ TRUSTED = [
     "hand-written models coq/C16/{Rank,Bitset,Paged,Maps,Prio}Model.v of toolkit/ranking/binary_search.go, toolkit/dynamic_bit_set.go, "
     "toolkit/collection/listings/*.go, toolkit/collection/mappings/*.go, tied by differential runs (harness/cmd/c16*) — not translations",
     "translate/c16locks (go/ast, syntactic): lock skeletons of SyncMap/OrderSync/SyncSlice/SyncPrioritySlice/MutexBucket(Item) regenerated from the "
-    "tree under test on every run; owner = root identifier, guarded field = written field of a struct owning a mutex; loops unrolled 0/1 times",
+    "tree under test on every run; owner = root identifier, guarded field = written field of a struct owning a mutex; loops unrolled 0/1 times "
+    "(0/1/2 when the body locks)",
+    "coq/C16/AtomicModel.v multi_step: the four methods declared to be several atomic steps (MutexBucketItem.GetOrSet, SyncPrioritySlice.Appends, "
+    "MutexBucket.Len, MutexBucket.Clear) with the exact shapes their paths may have; justified in docs/C16-NOTES.md",
+    "harness/cmd/c16conc: real goroutines, logical-clock stamps, plain slice/map sequential specifications, porcupine v1.3.0 (linearizability checker) "
+    "cross-checked by an exhaustive search; sound for hits, says nothing when silent",
     "Go harnesses + generators + brute-force monitors (harness/cmd/c16*, harness/vh), bin/check, lib/vlib.py",
     "Go runtime: slices, maps, sort.Slice, sync.RWMutex semantics (the lock machine of coq/C16/LockModel.v is a model of RWMutex without writer preference)",
 ]
@@ -20,9 +26,10 @@ HARNESSES = [
     {"pkg": "c16paged", "sub": "paged"},
     {"pkg": "c16maps", "sub": "maps"},      # writes four sub-harnesses: order, bucket, syncmap, syncslice
     {"pkg": "c16prio", "sub": "prio"},
+    {"pkg": "c16conc", "sub": "conc", "coq": False},   # concurrent rounds on the real code (linearizability / serial equivalence); no Coq model
 ]
 REPLAY_PKG = {"rank": "c16rank", "bitset": "c16bitset", "paged": "c16paged", "order": "c16maps", "bucket": "c16maps",
-              "syncmap": "c16maps", "syncslice": "c16maps", "prio": "c16prio"}
+              "syncmap": "c16maps", "syncslice": "c16maps", "prio": "c16prio", "conc": "c16conc"}
 MANIFEST = {
     "text": "Machine-checked (Coq) theorems over executable models that follow the Go algorithms: for every operation history the leaderboard "
             "keeps each competitor once, ordered by its Cmp, within its limit, map and list in agreement, GetRank/GetCompetitor inverse, scores = "
@@ -33,80 +40,179 @@ MANIFEST = {
             "discipline whose consequences (writer exclusion, no race on guarded fields, no deadlock) are proved for any number of threads. "
             "Each run replays ~8 000 generated histories on the real code and inside Coq and restates the property with brute-force monitors.",
     "note": "Models are hand-written and tied by differential runs; scores/keys/values are int64; page size >= 1; linearizability proper is not "
-            "proved (atomic blocks + race freedom + deadlock freedom are). Six defects found by the check and repaired by the four fixes/C16-*.patch "
+            "proved (atomic blocks + race freedom + deadlock freedom + one-critical-section-per-atomic-step are; MutexBucket.Len/Clear are per-bucket atomic "
+            "only and SyncPrioritySlice.Appends is a sequence of atomic Appends — documented). Six defects found by the check and repaired by the four fixes/C16-*.patch "
             "(the models follow the repaired code), one more outside the modelled domain (NaN scores); see docs/C16-NOTES.md.",
-    "technique": "Coq refinement/invariant proofs + lockstep differential testing + go/ast lock-skeleton extraction",
+    "technique": "Coq refinement/invariant proofs + lockstep differential testing + go/ast lock-skeleton extraction + linearizability stress (porcupine)",
 }
 
 LOCK_TYPES = ["SyncMap", "OrderSync", "SyncSlice", "SyncPrioritySlice", "MutexBucket", "MutexBucketItem"]
 
 
+def _pairs(o, name):
+    m = re.search(name + r"\s*=(.*?):\s*list", o, re.S)
+    return re.findall(r'\("(\w+)",\s*"(\w+)"\)', m.group(1)) if m else []
+
+
 def run_lock_translator(ctx):
-    """T3: regenerate the lock skeletons from the tree under test and compile them against coq/C16/LockModel.v.
-    Returns (ok, offenders, methods, log, skeletons)."""
+    """T3: regenerate the lock skeletons from the tree under test and compile them against coq/C16/LockModel.v and
+    AtomicModel.v. Returns a dict: ok, offenders (not well locked), nonatomic (not one critical section and not the declared
+    multi-step shape), multistep, methods, closed, log, skel {(type, method): {skeleton, paths}}."""
     d = os.path.join(ctx.scratch, "locks")
     os.makedirs(d, exist_ok=True)
     out = os.path.join(d, "C16Extracted.v")
+    r = {"ok": False, "offenders": [], "nonatomic": [], "multistep": [], "methods": 0, "closed": 0, "log": "", "skel": {}}
     rc, o, e, _ = vlib.sh(["go", "run", ".", "-repo", vlib.REPO, "-o", out], cwd=os.path.join(vlib.VERIF, "translate", "c16locks"),
                           env=vlib.GOENV, timeout=600)
     if rc != 0:
-        return False, [], 0, "translate/c16locks failed:\n" + (o + e)[-2000:], {}
+        r["log"] = "translate/c16locks failed:\n" + (o + e)[-2000:]
+        return r
     rc, o, e, _ = vlib.sh(["coqc", "-Q", vlib.COQ, "MV", out], cwd=d, timeout=900)
-    m = re.search(r"offenders\s*=(.*?):\s*list", o, re.S)
-    offenders = re.findall(r'\("(\w+)",\s*"(\w+)"\)', m.group(1)) if m else []
+    r["offenders"], r["nonatomic"], r["multistep"] = _pairs(o, "offenders"), _pairs(o, "nonatomic"), _pairs(o, "multistep")
     src = open(out).read()
-    methods = len(re.findall(r"mtype :=", src))
-    skel = {}
+    r["methods"] = len(re.findall(r"mtype :=", src))
     try:
         for it in json.load(open(out[:-2] + ".json")):
-            skel[(it["type"], it["method"])] = it["skeleton"]
+            r["skel"][(it["type"], it["method"])] = {"skeleton": it["skeleton"], "paths": it.get("paths")}
     except Exception:
         pass
     missing = [t for t in LOCK_TYPES if 'mtype := "%s"' % t not in src]
-    ok = rc == 0 and "Closed under the global context" in o and not offenders and not missing
-    log = (o + e)[-2500:]
+    r["closed"] = len(re.findall(r"Closed under the global context", o))
+    r["ok"] = rc == 0 and r["closed"] == 2 and not r["offenders"] and not r["nonatomic"] and not missing
+    r["log"] = (o + e)[-2500:]
     if missing:
-        log = "no method extracted for %s\n" % missing + log
-    return ok, offenders, methods, log, skel
+        r["log"] = "no method extracted for %s\n" % missing + r["log"]
+    return r
+
+
+def _sections_text(paths):
+    """the critical sections of the worst path of a method, for the broken-obligation text"""
+    def bad(p):
+        return len(p) + 10 * sum(1 for x in p if x.get("kind") == "outside")
+    worst = max(paths or [[]], key=bad)
+    out = []
+    for x in worst:
+        if x.get("kind") == "section":
+            out.append("%s-section on %s reads=%s writes=%s" % ({"R": "RLock", "W": "Lock"}.get(x.get("mode"), "?"), x.get("owner"),
+                                                             x.get("reads") or [], x.get("writes") or []))
+        elif x.get("kind") == "call":
+            out.append("call %s.%s" % (x.get("owner"), x.get("callee")))
+        else:
+            out.append("OUTSIDE any section: %s %s reads=%s writes=%s" % (x.get("owner"), x.get("callee") or "", x.get("reads") or [], x.get("writes") or []))
+    return "; then ".join(out) or "(nothing)"
+
+
+NAMES = ["extracted_well_locked", "extracted_threads_safe", "extracted_atomic_steps", "extracted_one_section"]
 
 
 def locks_pre(ctx):
     t0 = time.time()
-    ok, offenders, methods, log, skel = run_lock_translator(ctx)
-    ctx.obligations += 2
-    names = ["extracted_well_locked", "extracted_threads_safe"]
-    ctx.extra["locks"] = {"methods": methods, "offenders": ["%s.%s" % x for x in offenders], "wall_s": round(time.time() - t0, 1)}
-    if ok:
-        ctx.discharged += 2
-        ctx.theorems += names
-        for n in names:
-            ctx.axioms[n] = []
+    r = run_lock_translator(ctx)
+    ctx.obligations += len(NAMES)
+    ctx.c16_nonatomic = [(t, m) for (t, m) in r["nonatomic"]]
+    ctx.extra["locks"] = {"methods": r["methods"], "offenders": ["%s.%s" % x for x in r["offenders"]],
+                          "not_one_critical_section": ["%s.%s" % x for x in r["nonatomic"]],
+                          "declared_multi_step_in_use": ["%s.%s" % x for x in r["multistep"] if x not in r["nonatomic"]],
+                          "wall_s": round(time.time() - t0, 1)}
+    good = NAMES if r["ok"] else (NAMES[:2] if r["closed"] >= 1 and not r["offenders"] else [])
+    ctx.discharged += len(good)
+    ctx.theorems += good
+    for n in good:
+        ctx.axioms[n] = []
+    if r["ok"]:
         return
-    for (typ, meth) in offenders:
+    for (typ, meth) in r["offenders"]:
         ctx.viol.append({
             "kind": "locks:%s.%s:not-well-locked" % (typ, meth),
             "detail": "lock skeleton extracted from the current source fails the discipline (guarded access outside its critical section, "
                       "unlock of a lock not held, or lock taken while one is held)",
             "sub": "locks", "case_id": -1,
-            "case": {"type": typ, "method": meth, "skeleton": skel.get((typ, meth))},
+            "case": dict(r["skel"].get((typ, meth)) or {}, type=typ, method=meth),
             "sig": {"type": typ, "method": meth}})
-    ctx.proof_errors.append("generated Lemma extracted_well_locked does not hold for the current sources (offenders: %s)\n%s" %
-                            (", ".join("%s.%s" % x for x in offenders) or "none parsed", log[-1200:]))
+    if r["offenders"]:
+        ctx.proof_errors.append("generated Lemma extracted_well_locked does not hold for the current sources (offenders: %s)\n%s" %
+                                (", ".join("%s.%s" % x for x in r["offenders"]), r["log"][-1200:]))
+    # a method that the models treat as ONE atomic step but whose current source is not one critical section: a broken
+    # obligation, not by itself a failing input — the failing-input search (c16_search) tries to exhibit a concurrent history
+    for (typ, meth) in r["nonatomic"]:
+        sk = r["skel"].get((typ, meth)) or {}
+        ctx.proof_errors.append(
+            "T3 obligation extracted_atomic_steps (one atomic step of the model = one critical section) is broken by %s.%s: the sequential "
+            "models (coq/C16/MapsModel.v, PrioModel.v) execute %s as ONE atomic step, but a path of the current source runs [%s]; it is not "
+            "among the declared multi-step methods (coq/C16/AtomicModel.v multi_step) or no longer has its declared shape. Between two "
+            "sections other goroutines can change the guarded state, so what the first section read may be stale in the second "
+            "(check-then-act).\nskeleton: %s" % (typ, meth, meth, _sections_text(sk.get("paths")), (sk.get("skeleton") or "")[:1500]))
+    if not r["offenders"] and not r["nonatomic"]:
+        ctx.proof_errors.append("the generated lock-skeleton file does not check (%d of 2 theorems closed under the global context)\n%s" %
+                                (r["closed"], r["log"][-1500:]))
+
+
+def c16_search(ctx):
+    """Failing-input search. First, for every method that broke the one-critical-section obligation: concurrent rounds on the real
+    code biased to that method (harness/cmd/c16conc -focus), judged by the linearizability / serial-equivalence monitors; a hit is a
+    concrete failing history. Then the framework's default search (all sub-harnesses at thorough volume, fresh seeds)."""
+    t0 = time.time()
+    todo = list(getattr(ctx, "c16_nonatomic", []))
+    conc = [h for h in ctx.harnesses if h[1] == "conc"]
+    tried = 0
+    if todo and conc:
+        binary = conc[0][0]
+        per = max(8.0, (30.0 if ctx.tier == "quick" else 240.0) / len(todo))
+        for k, (typ, meth) in enumerate(todo):
+            outdir = os.path.join(ctx.scratch, "search_conc_%d" % k)
+            os.makedirs(outdir, exist_ok=True)
+            seed = ctx.seed + 104729 * (k + 1)
+            vlib.sh([binary, "-out", outdir, "-seed", str(seed), "-tier", ctx.tier, "-nocoq", "-focus", "%s.%s" % (typ, meth), "-budget", str(per)],
+                    timeout=per + 90)
+            for sp in glob.glob(os.path.join(outdir, "*_summary.json")):
+                s = json.load(open(sp))
+                tried += s.get("evaluations", 0)
+                for v in s.get("violations") or []:
+                    if not vlib.match_known(ctx.prop, v):
+                        v["search"] = {"seed": seed, "focus": "%s.%s" % (typ, meth), "rounds_tried": tried, "wall_s": round(time.time() - t0, 1),
+                                       "broken_obligation": "extracted_atomic_steps: %s.%s is not one critical section" % (typ, meth)}
+                        return v
+        ctx.extra["search_conc"] = {"focus": ["%s.%s" % x for x in todo], "rounds_tried": tried, "wall_s": round(time.time() - t0, 1), "found": False}
+    return vlib.default_search(ctx, budget_s=45 if (todo and ctx.tier == "quick") else None)
 
 
 def check(ctx):
-    return vlib.standard_check(ctx, ["C16"], "C16/Properties.v", HARNESSES, TRUSTED, "DESIGN.md §6 C16",
-                               checker_extra="; go run translate/c16locks && coqc <generated lock skeletons>",
-                               chk_modules=["MV.C16.Properties"], pre=locks_pre)
+    ctx.trusted += TRUSTED
+    bad = vlib.forbidden_scan(["Lib", "C16"])
+    if bad:
+        ctx.proof_errors.append("forbidden constructs: %s" % bad[:5])
+    if vlib.coq_make(ctx, ["Lib", "C16"]):
+        vlib.coq_properties(ctx, "C16/Properties.v")
+    locks_pre(ctx)
+    built = {}
+    for h in HARNESSES:
+        if h["pkg"] not in built:
+            built[h["pkg"]] = vlib.go_build(ctx, h["pkg"])
+        vlib.run_harness(ctx, built[h["pkg"]], h["sub"], coq=h.get("coq", True))
+    if ctx.tier == "thorough":
+        vlib.coqchk(ctx, ["MV.C16.Properties"])
+    cmd = "make -C coq (full .vo build) && coqc C16/Properties.v (Print Assumptions per theorem); go build harness/cmd/{%s} against the tree under " \
+          "test; coqc <generated cases shards> (vm_compute); go run translate/c16locks && coqc <generated lock skeletons> (well_locked, " \
+          "step_ok); c16conc: concurrent rounds judged by porcupine + exhaustive search" % ",".join(sorted({h["pkg"] for h in HARNESSES}))
+    return vlib.finish(ctx, cmd, "DESIGN.md §6 C16", search=c16_search)
 
 
 def replay(ctx, path):
     d = json.load(open(path))
-    if d.get("sub") == "locks":
-        ok, offenders, methods, log, skel = run_lock_translator(ctx)
+    if d.get("sub") == "locks" or "broken_obligations" in d:
+        r = run_lock_translator(ctx)
         c = d.get("case") or {}
-        still = (c.get("type"), c.get("method")) in offenders
-        print(json.dumps({"method": "%s.%s" % (c.get("type"), c.get("method")), "still_not_well_locked": still,
-                          "skeleton_now": skel.get((c.get("type"), c.get("method"))), "offenders_now": ["%s.%s" % x for x in offenders]}))
-        return 1 if still else 0
+        now = r["offenders"] + r["nonatomic"]
+        if d.get("sub") == "locks":
+            still = (c.get("type"), c.get("method")) in r["offenders"]
+            print(json.dumps({"method": "%s.%s" % (c.get("type"), c.get("method")), "still_not_well_locked": still,
+                              "skeleton_now": (r["skel"].get((c.get("type"), c.get("method"))) or {}).get("skeleton"),
+                              "offenders_now": ["%s.%s" % x for x in r["offenders"]]}))
+            return 1 if still else 0
+        print(json.dumps({"broken_obligations_recorded": [b[:300] for b in d.get("broken_obligations") or []],
+                          "not_well_locked_now": ["%s.%s" % x for x in r["offenders"]],
+                          "not_one_critical_section_now": ["%s.%s" % x for x in r["nonatomic"]],
+                          "lock_skeleton_file_checks_now": r["ok"],
+                          "sections_now": {"%s.%s" % x: (r["skel"].get(x) or {}).get("paths") for x in r["nonatomic"]}}))
+        return 1 if (now or not r["ok"]) else 0
     return vlib.standard_replay(ctx, REPLAY_PKG, path)
